@@ -193,6 +193,10 @@ class C07(Prop):
         if not ok:
             res.excluded = why
             return res
+        kf = GW.known_finding_class(case)
+        if kf:
+            res.excluded = kf
+            return res
         steps = case.get("steps")
         if not isinstance(steps, list) or not case["instances"]:
             res.excluded = "malformed"
